@@ -82,6 +82,7 @@ func (*gatedRPC) AddFollower(context.Context, model.Server, *proto.AddFollowerRe
 func (*gatedRPC) GetStatus(ctx context.Context, _ model.Server, _ *proto.GetStatusRequest) (*proto.GetStatusResponse, error) {
 	return nil, fmt.Errorf("stub: no status")
 }
+
 // DeleteShard blocks for the shards the scheduler holds back (the Deleting shards of the scenario); the removal of a
 // replica from a swapped-out node of any other shard is answered at once.
 func (g *gatedRPC) DeleteShard(ctx context.Context, _ model.Server, req *proto.DeleteShardRequest) (*proto.DeleteShardResponse, error) {
